@@ -1,5 +1,6 @@
 import SemverGen.RustPrelude
 import SemverGen.Winnow
+import SemverGen.Bytes
 /-!
 # Definitions extracted from the Rust source by `translator/` (rs2lean)
 
@@ -820,6 +821,18 @@ theorem Semver.Gen.canonical_Range_serialize : True := trivial
 
 /-- `Range::deserialize` (Deserialize<'de>) is still `{lets=String::deserialize(d)?;s.parse().map_err(serde::de::Error::custom)}` -/
 theorem Semver.Gen.canonical_Range_deserialize : True := trivial
+
+/-- `SemverError::offset` () is still `{self.span.offset()}` -/
+theorem Semver.Gen.canonical_SemverError_offset : True := trivial
+
+/-- `SemverError::location` (lib.rs:101-128) -/
+def Semver.SemverError.rs_location (self : Semver.SemverError) : (Nat × Nat) :=
+  (let prefix_ := (Rust.index_to (Rust.as_bytes self.input) (Semver.SemverError.rs_offset self))
+  let line_number := (Rust.bytecount prefix_ ('\n'))
+  let line_begin := (Rust.unwrap_or (Rust.map (Rust.position (Rust.rev prefix_) (fun b => (Rust.byte_eq b '\n'))) (fun pos => ((Semver.SemverError.rs_offset self) - pos))) 0)
+  let line := (Rust.trim_end (Rust.unwrap_or (Rust.iter_first (Rust.lines (Rust.index_from self.input line_begin))) (Rust.index_from self.input line_begin)))
+  let column_number := (Rust.ptr_diff (Rust.index_from self.input (Semver.SemverError.rs_offset self)) line)
+  (line_number, column_number))
 
 /-- `Version::parse` (lib.rs:339-376) -/
 def Semver.Version.rs_parse (input : (List Char)) : (Except Semver.SemverError Semver.Version) := do
